@@ -809,6 +809,66 @@ def check_nullflow(chk, prog, summ, f, nullable, rule):
                proof="dominated by a non-NULL test of the same path")
 
 
+def check_extern_nullable_args(chk, prog, summ, f0, nullable, rule="D4"):
+    """D4 (continued): in the unit-local functions a dup runs (constructor, initialiser, the function that derives a field), a
+    storage field that is NULL in a freshly created object (the text of a pattern-less regexp) is not handed to a library
+    function outside libast that dereferences it, unless a non-NULL test of it has been passed."""
+    from ..listrules import unit_closure
+    from ..models import DEREFS
+    n = 0
+    for f in unit_closure(f0):
+        if f.cfg is None or f.body is None:
+            continue
+        cfg = nullness.prepared_cfg(f, NORETURN)
+        sites = []
+
+        def storage_path(e):
+            s_ = X.strip(e)
+            if s_ is not None and s_.get("k") == "member" and s_.get("arrow"):
+                r = s_.get("rec")
+                b_ = X.strip(s_["ch"][0])
+                # the object's own storage (through the casts to its parent class), not that of an object it refers to
+                if r in nullable and s_["n"] in nullable[r] and s_["n"] in STORAGE_FIELDS and b_ is not None and \
+                        b_.get("k") == "ref" and b_.get("rk") == "param" and b_.get("pi") == 0:
+                    return True
+            return False
+
+        def visit(state, x, blk):
+            if x.get("k") != "call":
+                return
+            cn = X.callee_name(x)
+            if cn is None or prog.fn(cn) is not None or cn not in DEREFS:
+                return
+            for j in DEREFS[cn]:
+                if 1 + j >= len(x["ch"]):
+                    continue
+                a = nullness.resolve_conditional(x["ch"][1 + j], state)
+                arms = [(a, state)]
+                sa = X.strip(a)
+                if sa is not None and sa.get("k") == "cond":
+                    # each arm under what its test establishes (s ? s : "")
+                    arms = [(sa["ch"][1], frozenset(state) | frozenset(X.implied(sa["ch"][0], True))),
+                            (sa["ch"][2], frozenset(state) | frozenset(X.implied(sa["ch"][0], False)))]
+                for arm, st_ in arms:
+                    if storage_path(arm):
+                        p_ = X.apath(arm)
+                        sites.append((x, arm, cn, p_ is not None and ("nn", p_) in st_))
+        seed = frozenset([("nn", "d%d" % p["d"]) for p in f.params if p.get("tp")])
+        flow.forward(cfg, seed, nullness.transfer, refine=nullness.refine, visit=visit)
+        seen = set()
+        for x, arm, cn, ok in sites:
+            key = canon(f, arm) + ":" + cn
+            if key in seen:
+                continue
+            seen.add(key)
+            n += 1
+            chk.ob(rule, f.name, "nullable-storage-to-%s:%s" % (cn, canon(f, arm)[:30]), ok, loc=f.loc(x),
+                   detail="%s (run by %s) hands %s to %s(), which dereferences it; the field is NULL in a freshly created object, so "
+                          "%s on such an object crashes" % (f.name, f0.name, X.render(arm)[:40], cn, f0.name),
+                   proof="a non-NULL test of the field is passed first")
+    return n
+
+
 def check_type(chk, prog, f):
     loc = f.loc(f.body)
     tabs = [t["var"] for t in classinfo.tables_of(prog, f.name)]
@@ -864,6 +924,7 @@ def run(tier="quick"):
     for f in dups:
         check_dup(chk, prog, summ, f, nullable)
         nd6 += check_derived(chk, prog, f)
+        check_extern_nullable_args(chk, prog, summ, f, nullable, "D4")
     chk.count("derived_field_stores_in_dup", nd6, floor=1)
     # D5: the copy's storage satisfies the class's representation invariant (CAP over the value-class dup functions)
     from ..capcheck import run_cap
